@@ -29,6 +29,7 @@ F18A = "F18:served-snapshot-carries-shrunk-last-step-dt"
 F18B = "F18:served-snapshot-torn-by-unlocked-synchronize"
 F19 = "F19:server-started-mid-step-serialises-live-state"
 F20 = "F20:server-closes-connection-descriptor-twice"
+F21 = "F21:stop_server-frees-server_data-under-the-running-loop"
 
 
 # ============================================================================ simulations
@@ -488,6 +489,8 @@ class Unit:
             while sim._server_data and sim._server_data.contents.ready == 0 and time.time() < deadline:
                 time.sleep(0.005)
             if sim._server_data and sim._server_data.contents.ready == 1:
+                if self.shim:
+                    self.shim.c19_poll()
                 self.down.clear()
                 self.ready.set()
                 return True
@@ -503,6 +506,8 @@ class Unit:
         self.down.set()
         self.ready.clear()
         self.sim.stop_server()
+        if self.shim:
+            self.shim.c19_poll()               # log the stop now (the next start must not hide it)
         self.stops.append((t0, time.time()))
 
     def client(self):
@@ -635,7 +640,7 @@ def worker(argv):
     mode = job.get("start", "before")       # before | paused | during : when reb_simulation_start_server is called
     use_server = job.get("server", True)
     multi = len(specs) > 1
-    shim = ctypes.CDLL(job["shim"]) if (job.get("shim") and use_server and not multi and not job.get("restart")) else None
+    shim = ctypes.CDLL(job["shim"]) if (job.get("shim") and use_server and not multi) else None
     res = {"ok": False}
 
     def fail(msg):
@@ -764,7 +769,7 @@ def worker(argv):
         shim.c19_dump(os.path.join(out, "trace.txt").encode())
         res["counts"] = {n: shim.c19_count(i) for i, n in enumerate(
             ["iEnter", "iChkBegin", "iChkSync", "iChkEnd1", "iChkEnd0", "iSpin", "iLock", "iStepBegin", "iStepEnd",
-             "iUnlock", "iEpiSync", "iLeave", "sLock", "sSerBegin", "sSerEnd", "sUnlock", "xStart"])}
+             "iUnlock", "iEpiSync", "iLeave", "sLock", "sSerBegin", "sSerEnd", "sUnlock", "xStart", "xStop"])}
         res["late_spins"] = shim.c19_count(-1)
         res["foreign_ser"] = shim.c19_count(-2)
         res["double_close"] = shim.c19_count(-3)
@@ -1511,13 +1516,11 @@ def one_scenario(d, exe, shim, offs, ptime, deadline, si, nS, tag, sp, jp, seed,
             L["cov"].setdefault(k, [])
             L["cov"][k] += v
     units = jp.get("specs")
-    if units or jp.get("restart"):
-        # no trace (several simulations / the server is stopped and restarted: outside the model): search only
+    if units:
+        # no trace (several simulations in one process: the shim follows one): search only
         for ui, sp_u in enumerate(units or [sp]):
             analyse(sp_u, os.path.join(res["out"], "u%d" % ui) if units else res["out"], None, what + " unit %d" % ui)
         R.count(("no-trace", tag, sp["integ"]))
-        if jp.get("restart"):
-            L["stats"]["stop_server_cycles"] = res.get("stop_cycles", 0)
         return L
     cnt = res.get("counts", {})
     if cnt.get("iStepBegin", 0) != res["steps_done"] or cnt.get("sSerBegin", 0) < res["nbodies"] or \
@@ -1567,6 +1570,8 @@ def one_scenario(d, exe, shim, offs, ptime, deadline, si, nS, tag, sp, jp, seed,
         L["stats"]["heartbeat_callback_calls"] = res["heartbeat_calls"]
     if jp.get("keyboard"):
         L["stats"]["integrate_calls_in_keyboard_scenarios"] = res.get("integrate_calls", 0)
+    if jp.get("restart"):
+        L["stats"]["stop_server_cycles"] = res.get("stop_cycles", 0)
     R.count(("trace", tag, sp["integ"]), nontrivial=res["nbodies"] > 0)
     if racy is not None and racy[0] == "clean":
         for name, mt in mutants(toks, mrng):
@@ -1966,6 +1971,56 @@ def tsan_part(c, d):
                      {"report": unexpected[0]})
 
 
+def asan_stop_part(c, d):
+    """thorough: reb_simulation_stop_server while integrate() runs in another thread, under AddressSanitizer"""
+    src = os.path.join(d, "src")
+    td = tempfile.mkdtemp(prefix="asan.", dir=d)
+    cs = sorted(f for f in os.listdir(src) if f.endswith(".c") and f not in SKIP_C)
+    flags = [f for f in CFLAGS if f != "-O3"] + ["-O1", "-g", "-fsanitize=address", "-fno-omit-frame-pointer"]
+
+    def comp(f):
+        p = subprocess.run(["gcc"] + flags + ["-c", os.path.join(src, f), "-o", os.path.join(td, f[:-2] + ".o")],
+                           cwd=src, capture_output=True, text=True)
+        return f, p.returncode, p.stderr
+    with ThreadPoolExecutor(16) as ex:
+        res = list(ex.map(comp, cs))
+    if [r for r in res if r[1] != 0]:
+        c.cov["asan_stop"] = "not run: ASan build failed"
+        return
+    exe = os.path.join(td, "c19_stop")
+    p = subprocess.run(["gcc", "-O1", "-g", "-fsanitize=address", "-std=gnu99", "-w", "-DSERVER", "-I", src,
+                        os.path.join(HARNESS, "c19_stop.c")] + [os.path.join(td, f[:-2] + ".o") for f in cs] +
+                       ["-lm", "-lpthread", "-o", exe], capture_output=True, text=True)
+    if p.returncode != 0:
+        c.cov["asan_stop"] = "not run: harness link failed (%s)" % p.stderr[:300]
+        return
+    open(os.path.join(td, "rebound.html"), "w").write("<html></html>")
+    out = {"runs": 0, "use_after_free_in_integrate_loop": 0, "survived": 0, "other": 0}
+    for k in range(3):
+        env = dict(os.environ, ASAN_OPTIONS="use_sigaltstack=0:detect_leaks=0")
+        try:
+            q = subprocess.run([exe, str(free_port()), "400"], cwd=td, env=env, capture_output=True, text=True, timeout=150)
+        except subprocess.TimeoutExpired:
+            c.cov["asan_stop"] = "not completed: harness timed out"
+            return
+        out["runs"] += 1
+        c.count(("asan-stop", k))
+        err = q.stderr
+        if "heap-use-after-free" in err and "reb_simulation_integrate_raw" in err and "reb_simulation_stop_server" in err:
+            out["use_after_free_in_integrate_loop"] += 1
+            line = [l for l in err.splitlines() if "SUMMARY" in l][:1]
+            c.violation(F21, "AddressSanitizer: reb_simulation_stop_server freed server_data while the integration loop of another thread "
+                        "still dereferenced it: %s" % (line[0][-120:] if line else ""), {"harness": "harness/c19_stop.c", "cycles": 400,
+                                                                                      "report": err[:1500]})
+        elif "done cycles=" in q.stdout:
+            out["survived"] += 1
+        else:
+            out["other"] += 1
+            c.corr_break("stop_server during integrate(): unexpected sanitizer report / crash: %s" % err[:400], {"report": err[:1500]})
+    c.cov["asan_stop"] = out
+    c.cov.setdefault("dimensions", {})["server: stop_server while integrate() runs (ASan harness)"] = out["runs"]
+
+
 # ---------------------------------------------------------------------------- main
 def run(c):
     # hard stop: the check never hangs.  Every phase below has its own deadline (run_phase); this is the last resort.
@@ -2043,6 +2098,9 @@ def run(c):
         phase("tsan")
         tsan_part(c, d)
         c.log("tsan:", c.cov.get("tsan"))
+        phase("asan: stop_server during integrate")
+        asan_stop_part(c, d)
+        c.log("asan stop:", c.cov.get("asan_stop"))
     # cross-cutting dimensions: every applicable one must have been PLANNED by the generators (else: broken obligation);
     # planned but not evaluated can only be environmental (recorded as not exercised)
     planned = c.cov.get("dimensions_planned", {})
